@@ -46,6 +46,23 @@ class _c04m_driver:
         ddcommon.build_dd = self.orig
 
 
+def build_c04z(ctx):
+    """third driver (ZBDD restrict cases): ocaml/c02z_main.ml (shared with checks/C02.py) linked against the
+    extraction of coq/Extract/ExC02z.v (DD/ZbddOps.v + DD/ZbddBool.v); same harness (h_dd)."""
+    from checks import C02 as _c02
+    return _c02.build_c02z(ctx)
+
+
+class _c04z_driver:
+    """ddcommon.run_dd / replay_dd with the ZBDD model replay driver"""
+    def __enter__(self):
+        self.orig = ddcommon.build_dd
+        ddcommon.build_dd = build_c04z
+
+    def __exit__(self, *a):
+        ddcommon.build_dd = self.orig
+
+
 def case_quant_all(cid, kind, order):
     ops, n = ddgen.all_functions_prelude(3, order, both_routes=False)
     ops.append("SNAP")
@@ -113,6 +130,27 @@ def case_subst(cid, kind, order, rng, rounds):
     return (ddgen.header(cid, kind, cache=rng.choice([1, 16, 4096])), ops)
 
 
+def case_zbdd_restrict_random(cid, rng, nv, nfun, nops):
+    """ZBDD restrict over nv variables under a random order: random functions x random literal cubes
+    (cube variables above, between and below the operand's levels; operands Empty / Base / the tautology included)"""
+    order = list(range(nv))
+    rng.shuffle(order)
+    ops = [f"VARS {nv}", "ORDER " + " ".join(map(str, order))]
+    for i in range(nfun):
+        ops.append(f"TT h{i} {nv} {ddgen.rand_tt(rng, nv):x}")
+    ops += [f"CONST h{nfun} 0", f"CONST h{nfun + 1} 1", f"VAR h{nfun + 2} {rng.randrange(nv)}", "SNAP"]
+    k = 1000
+    for _ in range(nops):
+        pos = rng.randrange(1 << nv)
+        neg = rng.randrange(1 << nv) & ~pos
+        if rng.random() < 0.3:        # sparse cubes: most variables untouched
+            keep = rng.randrange(1 << nv) & rng.randrange(1 << nv)
+            pos, neg = pos & keep, neg & keep
+        ops.append(f"RESTRICT h{k} h{rng.randrange(nfun + 3)} {pos} {neg}"); k += 1
+    ops.append("SNAP")
+    return (ddgen.header(cid, "zbdd", cache=rng.choice([2, 64, 4096])), ops)
+
+
 def gen_cases(ctx):
     rng = random.Random(ctx.seed * 7919 + 4)
     thorough = ctx.tier == "thorough"
@@ -132,6 +170,13 @@ def gen_cases(ctx):
     # ZBDD restrict
     for order in (ddgen.PERMS3 if thorough else [rng.choice(ddgen.PERMS3[1:])]):
         cases.append(case_restrict_all(f"z{cid}", "zbdd", order)); cid += 1
+    for _ in range(24 if thorough else 6):
+        # (the model replay looks nodes up by scanning the table: keep the 6/7-variable cases small)
+        nv = rng.randrange(4, 8 if thorough else 7)
+        cases.append(case_zbdd_restrict_random(f"zr{cid}", rng, nv, 16, 300 if nv < 6 else (120 if nv == 6 else 60))); cid += 1
+    for _ in range(100 if thorough else 12):
+        cases.append(ddgen.case_history(f"zh{cid}", "zbdd", rng, nv=rng.randrange(4, 8), length=70, quant=False,
+                                        threads=rng.choice([1, 1, 4]))); cid += 1
     return cases
 
 
@@ -143,17 +188,27 @@ def run(ctx):
     with _c04m_driver():
         ok_m, bad_m = ddcommon.run_dd(ctx, ["C04"], bdd, rule="", allowed_axioms=ALLOWED_AXIOMS, drv_args=["--c04m"],
                                       write_ev=False, debug_cases=None, sig_extra="model")
+    # pass 1z (ZBDD restrict): the ZBDD cases through the extracted model of coq/DD/ZbddBool.v (zrestrict)
+    zbdd = [c for c in cases if " kind=zbdd " in c[0] + " "]
+    with _c04z_driver():
+        ok_z, bad_z = ddcommon.run_dd(ctx, ["C04"], zbdd, rule="", allowed_axioms=ALLOWED_AXIOMS, drv_args=["--c04z"],
+                                      proofs=False, write_ev=False, debug_cases=None, sig_extra="zbdd-model")
     ddcommon.run_dd(
         ctx, ["C04"], cases, proofs=False,
-        extra_cov={"model_replay_cases_ok": ok_m, "model_replay_cases_bad": len(bad_m)},
-        rule="per kind (bdd, bcdd): 256 functions x 8 variable subsets x 3 quantifiers; x 27 literal cubes (restrict, also zbdd); sampled pairs x 8 operators x 3 fused quantifier forms x random subsets under cache sizes {2,64,4096}; substitutions (1..3 variables, replacements from a 16-function pool) with each object applied 40 times, the last three objects alternated, gc/drop in between; one seed-chosen order (quick) / all 6 (thorough); random histories over 4..7 variables incl. quantification and substitution. non-trivial = case with >= 3 ops",
+        extra_cov={"model_replay_cases_ok": ok_m, "model_replay_cases_bad": len(bad_m),
+                   "zbdd_restrict_model_cases_ok": ok_z, "zbdd_restrict_model_cases_bad": len(bad_z)},
+        rule="per kind (bdd, bcdd): 256 functions x 8 variable subsets x 3 quantifiers; x 27 literal cubes (restrict, also zbdd; zbdd additionally: random functions x random cubes over 4..7 variables under random orders, random histories with restrict, all replayed on the extracted ZBDD restrict model); sampled pairs x 8 operators x 3 fused quantifier forms x random subsets under cache sizes {2,64,4096}; substitutions (1..3 variables, replacements from a 16-function pool) with each object applied 40 times, the last three objects alternated, gc/drop in between; one seed-chosen order (quick) / all 6 (thorough); random histories over 4..7 variables incl. quantification and substitution. non-trivial = case with >= 3 ops",
         allowed_axioms=ALLOWED_AXIOMS)
 
 
 def replay(ctx, path):
     import json
-    if "--c04m" in json.load(open(path)).get("drv_args", []):
+    args = json.load(open(path)).get("drv_args", [])
+    if "--c04m" in args:
         with _c04m_driver():
+            ddcommon.replay_dd(ctx, path)
+    elif "--c04z" in args:
+        with _c04z_driver():
             ddcommon.replay_dd(ctx, path)
     else:
         ddcommon.replay_dd(ctx, path)
